@@ -12,10 +12,10 @@ elements (no bounds); the non-residues are parameters.
 §2  every multiplication / squaring / inversion formula of the model returns the product / square / inverse of the
     quotient ring, coefficient by coefficient (hence equals the specification `Poly.mulMod`);
 §3  the specialised forms equal the generic operation under their precondition (sparse operands; cyclotomic subgroup:
-    Granger–Scott squaring, Karabina compressed squaring and decompression, conjugation as inverse);
+    Granger–Scott squaring, Karabina compressed squaring and decompression in all three cases, conjugation as inverse);
 §4  the stacked model as the driver executes it is carried to ring operations by evaluation at the adjoined roots;
 §5  loops (square-and-multiply, the signed-digit loop of the cyclotomic exponentiations, simultaneous inversion);
-§6  what is NOT true of the code: the exceptional branch of the decompression (finding C10-F8).
+§6  for the record: what the decompression formula computed before the repair of findings C10-F3 / C10-F8.
 
 Not covered by theorems (class C, compared with the specification on the presented lines only): the digit-level lazy
 reduction (double-precision accumulators, fp_addc_low/fp_subc_low corrections), Frobenius through the precomputed
@@ -190,16 +190,15 @@ theorem cyclotomic_relations {K : Type} [CommRing K] (conj : K →+* K) (s γ : 
 section decompression
 variable {F : Type} [Field F] [DecidableEq F] (hf ξ : F)
 
-/-- decompression (regular case g2 = a[1][0] ≠ 0): from any operand carrying the four retained coefficients of a
-    cyclotomic element a, fp12_back_cyc returns a -/
-theorem fp12_back_cyc (h2 : (2 : F) ≠ 0) (a x : Fp12 F) (h : IsCyc12 ξ a)
-    (h01 : x.c0.c1 = a.c0.c1) (h02 : x.c0.c2 = a.c0.c2) (h10 : x.c1.c0 = a.c1.c0) (h12 : x.c1.c2 = a.c1.c2)
-    (hg2 : a.c1.c0 ≠ 0) : fp12BackCyc (fieldOps hf) (fun t => ξ * t) false x = a :=
-  fp12BackCyc_eq hf ξ h2 a x h h01 h02 h10 h12 hg2
-
-theorem fp12_back_cyc_one :
-    fp12BackCyc (fieldOps hf) (fun t => ξ * t) true ⟨⟨1, 0, 0⟩, ⟨0, 0, 0⟩⟩ = (⟨⟨1, 0, 0⟩, ⟨0, 0, 0⟩⟩ : Fp12 F) :=
-  fp12BackCyc_one hf ξ
+/-- **decompression** (fp12_back_cyc, the code of /repo after the repairs of C10-F3 / C10-F8, regenerated from the C text):
+    from any operand carrying the four retained coefficients of an element a of the cyclotomic subgroup it returns a — in
+    the regular case g2 ≠ 0, in the exceptional case g2 = 0 (g1 = 2·g4·g5/g3) and for the identity (compressed form zero).
+    Field hypotheses: 2, 3 ≠ 0, ξ not a square, −3 a square (true in fp2 for the towers the library builds). -/
+theorem fp12_back_cyc (h2 : (2 : F) ≠ 0) (h3 : (3 : F) ≠ 0) (hns : ∀ y : F, y ^ 2 ≠ ξ) (ω : F) (hω : ω ^ 2 = -3)
+    (a x : Fp12 F) (h : IsCyc12 ξ a) (hne : NonZero12 a)
+    (h01 : x.c0.c1 = a.c0.c1) (h02 : x.c0.c2 = a.c0.c2) (h10 : x.c1.c0 = a.c1.c0) (h12 : x.c1.c2 = a.c1.c2) :
+    fp12BackCyc (fieldOps hf) (fun t => ξ * t) x = a :=
+  fp12BackCyc_eq hf ξ h2 h3 hns ω hω a x h hne h01 h02 h10 h12
 
 /-- uniqueness behind the specification's judgement of decompression: a non-zero solution of the relations is
     determined by its four retained coefficients when g2 ≠ 0 or g3 ≠ 0 -/
@@ -210,25 +209,20 @@ theorem decompression_unique_g1_exc (a : Fp12 F) (h : IsCyc12 ξ a) (hg2 : a.c1.
 theorem decompression_unique_g0 (a : Fp12 F) (h : IsCyc12 ξ a) (hne : NonZero12 a) :
     a.c0.c0 = ξ * (2 * a.c1.c1 ^ 2 + a.c1.c0 * a.c1.c2 - 3 * a.c0.c2 * a.c0.c1) + 1 := cyc_g0 ξ a h hne
 
-/-! ## §6 the exceptional branch of fp12_back_cyc does NOT decompress (finding C10-F8)
+/-! ## §6 for the record: the formula of fp12_back_cyc BEFORE the repair (findings C10-F3 / C10-F8, fixed in /repo)
 
-FULL STATEMENT WANTED (false for the code):  g2 = 0, g3 ≠ 0 → fp12BackCyc … false x = a.
-What holds instead: the computed coefficient g1 equals that of a iff g4·(4·g5 − 3·g4) = 0. -/
-theorem fp12_back_cyc_exceptional_partial (a x : Fp12 F) (h : IsCyc12 ξ a)
+`fp12BackCycOld` is not the code any more. In its exceptional branch (g2 = 0, g3 ≠ 0) the computed coefficient g1 was that of
+a only if g4·(4·g5 − 3·g4) = 0; in the regular branch it was right. -/
+theorem fp12_back_cyc_before_repair_exceptional (a x : Fp12 F) (h : IsCyc12 ξ a)
     (h01 : x.c0.c1 = a.c0.c1) (h02 : x.c0.c2 = a.c0.c2) (h10 : x.c1.c0 = a.c1.c0) (h12 : x.c1.c2 = a.c1.c2)
     (hg2 : a.c1.c0 = 0) (hg3 : a.c0.c2 ≠ 0) :
-    (fp12BackCyc (fieldOps hf) (fun t => ξ * t) false x).c1.c1 = a.c1.c1 ↔ a.c0.c1 * (4 * a.c1.c2 - 3 * a.c0.c1) = 0 :=
-  fp12BackCyc_exc_iff hf ξ a x h h01 h02 h10 h12 hg2 hg3
+    (fp12BackCycOld (fieldOps hf) (fun t => ξ * t) false x).c1.c1 = a.c1.c1 ↔ a.c0.c1 * (4 * a.c1.c2 - 3 * a.c0.c1) = 0 :=
+  fp12BackCycOld_exc_iff hf ξ a x h h01 h02 h10 h12 hg2 hg3
 
-/-- the repair proposed in findings/C10-3.md and C10-8.md (`fp12BackCycFixed`: numerator 2·g4·g5 kept in the exceptional
-    branch, identity recognised by its compressed form) decompresses EVERY element of the cyclotomic subgroup, from any
-    operand carrying its four retained coefficients. Field hypotheses: 2, 3 ≠ 0, ξ not a square, −3 a square (true in
-    fp2 for the towers the library builds). This is the full-strength statement the code of /repo fails. -/
-theorem fp12_back_cyc_repaired (h2 : (2 : F) ≠ 0) (h3 : (3 : F) ≠ 0) (hns : ∀ y : F, y ^ 2 ≠ ξ) (ω : F) (hω : ω ^ 2 = -3)
-    (a x : Fp12 F) (h : IsCyc12 ξ a) (hne : NonZero12 a)
-    (h01 : x.c0.c1 = a.c0.c1) (h02 : x.c0.c2 = a.c0.c2) (h10 : x.c1.c0 = a.c1.c0) (h12 : x.c1.c2 = a.c1.c2) :
-    fp12BackCycFixed (fieldOps hf) (fun t => ξ * t) x = a :=
-  fp12BackCycFixed_eq hf ξ h2 h3 hns ω hω a x h hne h01 h02 h10 h12
+theorem fp12_back_cyc_before_repair_regular (h2 : (2 : F) ≠ 0) (a x : Fp12 F) (h : IsCyc12 ξ a)
+    (h01 : x.c0.c1 = a.c0.c1) (h02 : x.c0.c2 = a.c0.c2) (h10 : x.c1.c0 = a.c1.c0) (h12 : x.c1.c2 = a.c1.c2)
+    (hg2 : a.c1.c0 ≠ 0) : fp12BackCycOld (fieldOps hf) (fun t => ξ * t) false x = a :=
+  fp12BackCycOld_regular hf ξ h2 a x h h01 h02 h10 h12 hg2
 
 end decompression
 
